@@ -45,7 +45,9 @@ def compRow (c : Comp) : List Nat :=
   let a := match c.anchor with
     | .offset x y => [1, u16OfInt x, u16OfInt y]
     | .point b k => [2, b, k]
-  [c.flags, c.gid] ++ a ++ [u16OfInt c.t.xx, u16OfInt c.t.yx, u16OfInt c.t.xy, u16OfInt c.t.yy]
+  -- … and `Anchor::compute_flags` / `Transform::compute_flags` of the decoded values (Model/Glyf.lean)
+  [c.flags, c.gid] ++ a ++ [u16OfInt c.t.xx, u16OfInt c.t.yx, u16OfInt c.t.xy, u16OfInt c.t.yy,
+    c.anchor.computeFlags, c.t.computeFlags]
 
 def natsOrEmpty (xs : List String) : Option (List Nat) := if xs = ["-"] then some [] else parseNats? xs
 
